@@ -24,8 +24,7 @@ FRM = "linux::sections::mappings::fill_raw_module"
 MI = "linux::maps_reader::MappingInfo"
 
 
-def rule_module_fields(ctx):
-    R = "C08/module-fields"
+def rule_module_fields(ctx, R="C08/module-fields"):
     b = ctx.body(R, FRM)
     if b is None:
         return
@@ -439,6 +438,12 @@ def rule_reader_base(ctx, R="C08/reader-base"):
 
 
 def run(ctx):
+    from rules import c18
+    c18.rule_auxv_pairs(ctx, R="C08/auxv-pairs")   # the entry point that selects the main module is the value of the AT_ENTRY pair
+    # "base and size are the merged extent" also for an image deleted on disk: names are compared as stored (same instance as C13/compare-as-stored)
+    from rules import c13
+    c13.rule_compare_as_stored(ctx, R="C08/merged-extent/compare-as-stored")
+    c13.rule_deleted_suffix(ctx, R="C08/merged-extent/deleted-suffix")
     from rules import preds
     preds.run(ctx, PROPERTY, ['is_executable', 'dynamic-segment', 'dynamic-section', 'zero-id-byte'])   # the opaque predicates these rules lean on, against oracle tables
     rule_module_fields(ctx)
